@@ -49,7 +49,7 @@ def run(rep, model, tier, seed, broken=()):
                                         "clean_canonical on canonical blocks)", lines=ls, impl=real, model=mo))
     rep.coverage["correspondence"]["clean_doc_lines"] = n
     rep.sample(dict(clean_doc_lines_input=cases[0]))
-    ast_run(rep, model, tier, seed, "C01", "doc-texts", 2, None, 300, 10000, ascii_only=False,
+    ast_run(rep, model, tier, seed, "C01", "doc-texts", 2, None, 700, 10000, ascii_only=False,
             gen_kw=dict(doc_p=0.75),
             rule="(a) clean_doc_lines on generated line lists (canonical / leaderless / @module / one-line / "
                  "malformed); (b) nested-AST modules with doc density 0.75 incl. non-ASCII text, every line-start "
